@@ -117,11 +117,16 @@ def _msg_to_switch(r, xid):
                (2, "get_config"), (2, "set_config"), (4, "packet_out"),
                (4, "flow_mod"), (2, "port_mod"), (4, "stats"), (3, "barrier"),
                (1, "queue_cfg"), (1, "vendor"), (1, "hello"),
-               (1, "big_packet_out"), (1, "big_flow_mod")])
+               (1, "big_packet_out"), (1, "big_flow_mod"), (1, "error")])
   if k == "echo_req":
     return W.enc_echo_request(xid, r.randbytes(r.pick([0, 1, 8, 100])))
   if k == "echo_rep":
     return W.enc_echo_reply(xid, b"")
+  if k == "error":
+    # (a controller may well report an error to the switch; the switch has
+    # no handler for it, which is its message handler's problem, not the
+    # framing's)
+    return W.enc_error(xid, 1, 1, r.randbytes(r.pick([0, 8, 64])))
   if k == "features":
     return W.enc_features_request(xid)
   if k == "get_config":
